@@ -72,7 +72,7 @@ func verif_TCPGroupCtl_Listen(tgc *TCPGroupCtl, proxyName string, group string, 
 // address, port and key (C13) and a refused join leaves the group unchanged.
 //
 //verif:contract (*~/server/group.TCPGroup).Listen
-//verif:props C09 C10 C13
+//verif:props C09 C10 C13 C11
 func verif_TCPGroup_Listen(tg *TCPGroup, proxyName string, group string, groupKey string, addr string, port int) {
 	n0 := len(tg.lns)
 	g0, k0, a0, p0, rp0 := tg.group, tg.groupKey, tg.addr, tg.port, tg.realPort
@@ -151,6 +151,9 @@ func verif_TCPGroup_CloseListener(tg *TCPGroup, ln *TCPGroupListener) {
 		verif.Ensures(verif.CalledWith(evRelease, 1, port) && verif.CallCount(evRelease) == 1, "last_leave_releases_port_once")
 		verif.Ensures(verif.CalledWith("TCPGroupCtl).RemoveGroup", 1, name), "last_leave_removes_group")
 		verif.Ensures(verif.Called("Listener).Close"), "last_leave_closes_listener")
+		// the group's name is given up last: a proxy that joins as soon as the
+		// name is free must find the port free and the old listener gone
+		verif.Ensures(verif.CalledBefore(evRelease, "TCPGroupCtl).RemoveGroup") && verif.CalledBefore("Listener).Close", "TCPGroupCtl).RemoveGroup"), "port_released_before_the_name_is_free")
 	} else {
 		verif.Ensures(!verif.Called(evRelease) && !verif.Called("TCPGroupCtl).RemoveGroup"), "other_leaves_release_nothing")
 		verif.Ensures(tg.closed == dead, "other_leaves_keep_state")
@@ -228,7 +231,7 @@ func verif_NewHTTPGroup(ctl *HTTPGroupController) {
 // and key; a refused join leaves the group unchanged; a dead group refuses.
 //
 //verif:contract (*~/server/group.HTTPGroup).Register
-//verif:props C13 C10 C06
+//verif:props C13 C10 C06 C07
 func verif_HTTPGroup_Register(g *HTTPGroup, proxyName, group, groupKey string, routeConfig vhost.RouteConfig) {
 	n0 := len(g.createFuncs)
 	dead := g.closed
@@ -249,6 +252,12 @@ func verif_HTTPGroup_Register(g *HTTPGroup, proxyName, group, groupKey string, r
 			// live members and stop reaching a member that left
 			rc, isRC := verif.NthArg[any](evAdd, 0, 4).(*vhost.RouteConfig)
 			verif.Ensures(isRC && verif.HandlerName(rc.CreateConnFn) == "createConn" && verif.HandlerName(rc.ChooseEndpointFn) == "chooseEndpoint" && verif.HandlerName(rc.CreateConnByEndpointFn) == "createConnByEndpoint", "route_dispatches_through_the_group")
+			// everything else the member declared for the route stays on it: above
+			// all the credentials (C07: a password-protected proxy is no less
+			// protected for being in a load-balancing group), the host rewrite and
+			// the configured headers
+			verif.Ensures(isRC && rc.Username == routeConfig.Username && rc.Password == routeConfig.Password, "route_keeps_the_members_credentials")
+			verif.Ensures(isRC && rc.Domain == routeConfig.Domain && rc.Location == routeConfig.Location && rc.RouteByHTTPUser == routeConfig.RouteByHTTPUser && rc.RewriteHost == routeConfig.RewriteHost, "route_keeps_the_members_routing_attributes")
 		}
 	} else {
 		verif.Ensures(!verif.Called(evAdd), "join_registers_no_route")
